@@ -204,6 +204,24 @@ def lru_pin(r, F):
                       and ("push_back" in calls.get("list", ()) or "push_back" in calls.get("high_priority_list", ())), fn,
                       "release->back-of-list", "on last drop the record leaves the pin list, is unmarked and re-enters at the back (%s)" % {k: sorted(v) for k, v in calls.items()},
                       "Lru::release does not move the record from the pin list back to the tail of an evictable list", ln=fn.lo)
+    # the operators re-check the record's flags under the lock before touching any list: a record that already left the
+    # container (evicted / removed between the last drop's decrement and the lock) must not be re-linked
+    for name in ("acquire", "release"):
+        fn = F.method(LRU, name, "Eviction")
+        for g in F.descendants(fn):
+            lops = [b for (fld, ms) in list_fields(g).items() for (m, b) in ms]
+            if not lops:
+                continue
+            ie = g.calls_to(r"Record::<E>::is_in_eviction$")
+            ok = bool(ie)
+            for c in ie[:1]:
+                for (swb, neg) in tables._bool_switches_on(g, c.idx):
+                    tt, ft = tables.bool_switch_targets(swb)
+                    if neg:
+                        tt, ft = ft, tt
+                    ok = ok and all(g.edge_guards(swb.idx, tt, b) for b in lops)
+            r.require(ok, g, "%s operator re-checks is_in_eviction under the lock" % name, "list operations only for records still in the container",
+                      "Lru::%s touches its lists without first re-checking (under the lock) that the record is still in the eviction container" % name, ln=g.lo)
     clr = F.method(LRU, "clear", "Eviction")
     lfc = list_fields(clr)
     r.require("pin_list" in lfc, clr, "clear-drains-pin_list", "clear empties the pin list as well", "Lru::clear leaves pinned records in the pin list", ln=clr.lo)
